@@ -195,6 +195,7 @@ pub fn run(run: &mut Run) -> PResult {
             return run.violation("C13.sequence", &sig, json!({"sequence": [hand_json(&items[a]), hand_json(&items[b])]}), &format!("after the predicates were called on [{}]: {}", card::render_hand(&items[a]), m));
         }
     }
+    count_soak(run, "predicates on class representatives", (1 << 25) + (1 << 12), &soak_step)?;
     let orders = if run.tier == Tier::Thorough { 4 } else { 1 };
     let seed = run.seed;
     let t = poker::tables();
@@ -282,7 +283,10 @@ pub fn run(run: &mut Run) -> PResult {
 }
 
 pub fn check_case(clause: &str, case: &Value) -> Result<(), String> {
-    if clause.ends_with(".after_disturbance") || clause.ends_with(".concurrent") || clause.ends_with(".concurrent_cold_start") {
+    if clause.ends_with(".soak") {
+        return replay_soak(case, &soak_step);
+    }
+    if clause.ends_with(".after_disturbance") || clause.ends_with(".concurrent") || clause.ends_with(".concurrent_cold_start") || clause.ends_with(".after_repetition") {
         return super::common::replay_after_disturbance(case, check_case);
     }
     if clause == "C13.sequence" {
@@ -297,4 +301,20 @@ pub fn check_case(clause: &str, case: &Value) -> Result<(), String> {
     let ws = engine::parse_words(&case["words"])?;
     cis_of(&ws)?;
     examine(&arr::<5>(&ws)?).map_err(|(c, m)| format!("{}: {}", c, m))
+}
+
+/// soak step n: the predicates on the representative of class (n mod 7462), in a slot order derived from n
+pub fn soak_step(n: u64) -> Result<(), String> {
+    let t = poker::tables();
+    let c = t.rep[1 + (n % 7462) as usize];
+    let w = crate::engine::apply_perm(&words_of_ci(&c), &crate::engine::perm_from_index::<5>((n / 7462) % 120));
+    let m = model(&w);
+    let h = Five::from(w);
+    #[allow(deprecated)]
+    let ok = h.is_flush() == m.flush && h.is_straight() == m.straight && h.is_straight_flush() == (m.flush && m.straight) && h.is_wheel() == m.wheel && ckc_rs::evaluate::is_flush(w) == m.flush;
+    if ok {
+        Ok(())
+    } else {
+        examine(&w).map_err(|(c, msg)| format!("{}: {}", c, msg)).and(Err(format!("a predicate on [{}] gave a wrong answer", card::render_hand(&w))))
+    }
 }
